@@ -68,6 +68,24 @@ def all_entries(env, rec: Applied):
         rec.meta.append({"entry": i, "action": aname, "options": {k: str(v) for k, v in opts.items()}})
 
 
+def check_declared(env, a: int, rec: Applied):
+    """After env.step(a): what the agent executed must be the entry declared under key a of its action map."""
+    agent = env.agent
+    h = agent.history[-1] if agent.history else None
+    if h is None:
+        return
+    try:
+        aname, opts = agent.config.action_space.action_map[a].action, agent.config.action_space.action_map[a].options
+        want = [str(x) for x in agent.action_manager.form_request(aname, opts)]
+    except Exception:  # noqa - no claim
+        return
+    got = [str(x) for x in h.request]
+    if got != want:
+        obs, leaf = rq.dry_run(env.game.simulation, list(h.request))
+        rec.events.append(rq.req_event(obs, leaf, True, getattr(h.response, "status", ""), False, 0, 0, "na", True, False, declared=False))
+        rec.meta.append({"entry": a, "declared": want[:8], "executed": got[:8]})
+
+
 def run_env(label: str, cfg: Dict[str, Any], steps: int, episodes: int, rng: random.Random, rec: Applied, chk: common.Check):
     from primaite.session.environment import PrimaiteGymEnv
 
@@ -94,6 +112,7 @@ def run_env(label: str, cfg: Dict[str, Any], steps: int, episodes: int, rng: ran
             except Exception as e:  # noqa - a step that raises is C01's business; note it and start a new episode
                 chk.notes.append(f"{label}: env.step raised {type(e).__name__} (reported by C01); episode abandoned")
                 break
+            check_declared(env, a, rec)
             all_entries(env, rec)
             traces.append({"cfg": {"dig": 0}, "ev": rec.events[mark:], "meta": {"scenario": label, "episode": ep, "step": s,
                                                                                "requests": rec.meta[mark:]},
@@ -114,7 +133,8 @@ def run_no_idle_entry(seed: int, rec: Applied, chk: common.Check, steps: int):
     rng = random.Random(seed)
     for order in (("node-startup", "node-shutdown", "node-reset"), ("node-shutdown", "node-startup"), ("node-reset", "node-startup")):
         cfg = scenarios.p2p(dur=2)
-        amap = {i: {"action": a, "options": {"node_name": "a"}} for i, a in enumerate(order)}
+        # (keys written in descending order: an action map is a mapping, the order in which its keys are written means nothing)
+        amap = {i: {"action": a, "options": {"node_name": "a"}} for i, a in reversed(list(enumerate(order)))}
         cfg["agents"] = [scenarios.proxy_agent(amap, masking=True)]
         env = PrimaiteGymEnv(env_config=cfg)
         env.reset(seed=seed)
@@ -128,6 +148,7 @@ def run_no_idle_entry(seed: int, rec: Applied, chk: common.Check, steps: int):
             acts.append(a)
             mark = len(rec.events)
             env.step(a)
+            check_declared(env, a, rec)
             all_entries(env, rec)
             if env.game.simulation.network.get_node_by_hostname("a").operating_state.name in ("BOOTING", "SHUTTING_DOWN"):
                 all_denied += 1
